@@ -32,6 +32,9 @@ type csCase struct {
 	ErrIP   string `json:"errip"`   // address inside dial / relay errors
 	ErrHost string `json:"errhost"` // host name inside a DNS error
 	DNS     string `json:"dns"`     // DNS server inside a DNS error
+	User    string `json:"user,omitempty"`  // setup-proxy-*: user name in TOR_PT_PROXY
+	Pass    string `json:"pass,omitempty"`  // … and password
+	Level   string `json:"level,omitempty"` // log level (default DEBUG)
 }
 
 type csPath struct {
@@ -93,6 +96,19 @@ var csPaths = []csPath{
 	// changed tree logs must not contain the listener's address.
 	{"client", "accept-errors", "", nil},
 	{"server", "accept-errors", "", nil},
+	// the setup code: the real clientSetup() (pt.ClientSetup, ptGetProxy) with an upstream proxy
+	// configured in TOR_PT_PROXY (proxy address errip=, user=, pass=), at level INFO and DEBUG.
+	// The unchanged code logs nothing about the proxy (no marker, nothing to expect with unsafe
+	// logging); whatever a changed tree logs must not contain the proxy's address, the user
+	// name or the password.  And the real serverSetup() with a distinctive bind address.
+	{"client", "setup-proxy-socks5", "", nil},
+	{"client", "setup-proxy-socks5-userpass", "", nil},
+	{"client", "setup-proxy-socks4a", "", nil},
+	{"client", "setup-proxy-socks4a-user", "", nil},
+	{"client", "setup-proxy-http", "", nil},
+	{"client", "setup-proxy-http-user", "", nil},
+	{"client", "setup-proxy-http-userpass", "", nil},
+	{"server", "setup-bind", "registered listener", []string{"errip"}},
 }
 
 func hostOf(hostport string) string {
@@ -105,7 +121,7 @@ func hostOf(hostport string) string {
 
 func (c csCase) needles() map[string]string {
 	return map[string]string{"peer": hostOf(c.Peer), "peer2": hostOf(c.Peer2), "local": hostOf(c.Local), "target": hostOf(c.Target),
-		"errip": c.ErrIP, "errhost": c.ErrHost, "dns": hostOf(c.DNS)}
+		"errip": c.ErrIP, "errhost": c.ErrHost, "dns": hostOf(c.DNS), "user": c.User, "pass": c.Pass}
 }
 
 type csHook struct {
@@ -184,6 +200,15 @@ func csCheck(r *vlib.Run, h *csHook, c csCase) {
 	tc := tcase{Kind: "callsite", CS: &c}
 	line := fmt.Sprintf("log.run %s %s %s peer=%s peer2=%s local=%s target=%s errip=%s errhost=%s dns=%s",
 		c.Mode, c.Who, c.Path, c.Peer, c.Peer2, c.Local, c.Target, c.ErrIP, c.ErrHost, c.DNS)
+	if c.User != "" {
+		line += " user=" + c.User
+	}
+	if c.Pass != "" {
+		line += " pass=" + c.Pass
+	}
+	if c.Level != "" {
+		line += " level=" + c.Level
+	}
 	rep := h.call(line)
 	r.Case(line, c.Mode == "safe" && len(p.expect) > 0)
 	r.Validated(1)
@@ -204,7 +229,7 @@ func csCheck(r *vlib.Run, h *csHook, c csCase) {
 	if c.Mode == "safe" {
 		// property: with scrubbing enabled the logged text never contains the IP address, host
 		// name or DNS server involved
-		for _, k := range []string{"peer", "peer2", "local", "target", "errip", "errhost", "dns"} {
+		for _, k := range []string{"peer", "peer2", "local", "target", "errip", "errhost", "dns", "user", "pass"} {
 			if nd[k] != "" && strings.Contains(text, nd[k]) {
 				bad := ""
 				for _, l := range strings.Split(text, "\n") {
@@ -302,6 +327,20 @@ func callSites(r *vlib.Run, replay *csCase) {
 					// this target is really dialled: a loopback address nobody listens on
 					// (refused at once, whatever the network of the machine)
 					c.Target = real
+				}
+				if strings.HasPrefix(p.path, "setup-") {
+					// proxy address: any IP literal (nothing is dialled at setup); bind address: loopback
+					switch {
+					case p.path == "setup-bind" || rng.Intn(3) == 0:
+						c.ErrIP = fmt.Sprintf("127.%d.%d.%d", rng.Range(2, 250), rng.Range(2, 250), rng.Range(2, 250))
+					case rng.Bool():
+						c.ErrIP = fmt.Sprintf("192.0.2.%d", rng.Range(2, 250))
+					default:
+						c.ErrIP = fmt.Sprintf("2001:db8:7::%x", rng.Range(0x10, 0xfffe))
+					}
+					c.User = fmt.Sprintf("proxyuser-%x", rng.U64()&0xffffff)
+					c.Pass = fmt.Sprintf("s3cr3t-%x", rng.U64()&0xffffff)
+					c.Level = []string{"INFO", "DEBUG"}[i%2] // both levels in every run
 				}
 				if strings.HasPrefix(p.path, "proxy-") {
 					// both proxy dialers resolve the target: an IPv4 literal; the proxy is on loopback
